@@ -58,6 +58,25 @@ pub fn check(case: &Case, obs: &Obs) -> CheckResult {
             let got = call.results.get(k);
             if consumed < supplied.len() {
                 let want_tok = &supplied[consumed];
+                // a typed pull on an element of another kind: the element is there, so the result is an
+                // error (which the handler propagates), never "absent"
+                let mismatched = match (&p.as_, want_tok) {
+                    (PullAs::Raw, _) | (PullAs::DataF64, ETok::Dec(_)) | (PullAs::DataBytes, ETok::Str(_)) => false,
+                    _ => true,
+                };
+                if mismatched {
+                    obs.label("typed pull on an element of another kind");
+                    match got {
+                        Some(PullResult::Error(code, _)) => {
+                            ensure!(*code != -109, "wrong-token", "{txt:?}: unit {i} pull {k} ({p:?}) on the present element {want_tok:?} reports -109 Missing parameter");
+                            expected_err = Some(*code);
+                            failed = true;
+                            break;
+                        }
+                        Some(PullResult::None) => fail!("optional-none-for-present", "{txt:?}: unit {i} optional pull {k} ({p:?}) returned None although the unit's element {consumed} is {want_tok:?}"),
+                        other => fail!("wrong-token", "{txt:?}: unit {i} pull {k} ({p:?}) gave {other:?} for the element {want_tok:?} of another kind"),
+                    }
+                }
                 match (&p.as_, got) {
                     (PullAs::Raw, Some(PullResult::Token(t))) => ensure!(t == want_tok, "wrong-token", "{txt:?}: unit {i} pull {k} returned {t:?}, the unit's element {consumed} is {want_tok:?}"),
                     (PullAs::DataF64, Some(PullResult::Converted(s))) => {
